@@ -96,3 +96,63 @@ def pass_pool(r, fonts_dir, nsynth=30):
         data, _ = fontsynth.gen_font(r, rtl=bool(k % 2))
         pool += silf_passes(sfnt.read_tables(data)["Silf"])
     return pool
+
+
+def gen_classmap(r):
+    """-> (wide, class-map bytes, probes): a well-formed class map (linear classes, then look-up classes with search headers and
+    sorted (glyph, index) pairs), usually mutated in the numbers `Silf::readClassMap` computes with"""
+    wide = r.random() < 0.4
+    nlin = r.randrange(0, 5)
+    nnon = r.randrange(0, 4)
+    classes = []
+    for _ in range(nlin):
+        classes.append([r.randrange(0, 40) for _ in range(r.randrange(0, 6))])
+    gids_seen = [g for c in classes for g in c]
+    for _ in range(nnon):
+        n = r.randrange(1, 7)
+        gids = sorted(r.sample(range(0, 60), n))
+        gids_seen += gids
+        sr = 1
+        while sr * 2 <= n:
+            sr *= 2
+        body = [n, sr, sr.bit_length() - 1, n - sr]
+        for k, g in enumerate(gids):
+            body += [g, r.randrange(0, n) if r.random() < 0.2 else k]
+        classes.append(body)
+    ncls = nlin + nnon
+    sz = 4 if wide else 2
+    clsoff = 4 + sz * (ncls + 1)
+    offs, data = [], []
+    for c in classes:
+        offs.append(clsoff + 2 * len(data))
+        data += c
+    offs.append(clsoff + 2 * len(data))
+    k = r.random()
+    if k < 0.5:
+        m = r.random()
+        if m < 0.2 and offs:
+            i = r.randrange(len(offs))
+            offs[i] = max(0, offs[i] + r.choice([-4, -2, -1, 1, 2, 4, 100, -100]))
+        elif m < 0.35:
+            nlin = max(0, nlin + r.choice([-1, 1, 2]))
+        elif m < 0.5:
+            ncls = max(0, ncls + r.choice([-1, 1, 3]))
+        elif m < 0.75 and data:
+            i = r.randrange(len(data))
+            data[i] = r.choice([0, 1, data[i] + 1, max(0, data[i] - 1), 0xFFFF, r.randrange(65536)])
+        elif m < 0.85 and offs:
+            offs[0] = r.choice([0, 4, offs[0] + 2, offs[0] + 65536 if wide else (offs[0] + 2) & 0xFFFF])
+        else:
+            data = data[: r.randrange(0, len(data) + 1)]
+    pk = (lambda x: struct.pack(">I", x & 0xFFFFFFFF)) if wide else (lambda x: struct.pack(">H", x & 0xFFFF))
+    b = struct.pack(">HH", ncls & 0xFFFF, nlin & 0xFFFF) + b"".join(pk(o) for o in offs) + b"".join(struct.pack(">H", v & 0xFFFF) for v in data)
+    if r.random() < 0.15:
+        b = b[: r.randrange(0, len(b) + 1)]
+    if r.random() < 0.1:
+        b += bytes(r.randrange(256) for _ in range(r.randrange(1, 9)))
+    probes = []
+    for _ in range(12):
+        cid = r.randrange(0, max(1, ncls) + 2)
+        x = r.choice(gids_seen) if gids_seen and r.random() < 0.6 else r.randrange(0, 64)
+        probes.append("%d.%d" % (cid, x))
+    return wide, b, ",".join(probes)
